@@ -138,6 +138,7 @@ type explorer struct {
 	violKeys                                 map[string]bool
 	valCases                                 []valCase
 	valSeen                                  int
+	started                                  time.Time
 	rng                                      *rand.Rand
 }
 
@@ -154,6 +155,7 @@ func newExplorer(cfg *harnessCfg) *explorer {
 		funcs: map[string]bool{}, stubs: map[string]bool{}, violKeys: map[string]bool{}}
 	e.cond = sync.NewCond(&e.mu)
 	e.stack = []*workItem{{}}
+	e.started = time.Now()
 	e.rng = rand.New(rand.NewSource(cfg.seed + 1))
 	return e
 }
@@ -171,6 +173,10 @@ func (e *explorer) pop() *workItem {
 	for {
 		if e.done {
 			return nil
+		}
+		if e.cfg.TimeBudget > 0 && len(e.stack) > 0 && time.Since(e.started) > e.cfg.TimeBudget {
+			e.inconclusive[fmt.Sprintf("time budget of %s reached with %d unexplored prefixes: exploration truncated", e.cfg.TimeBudget, len(e.stack))] = 1
+			e.stack = nil
 		}
 		if e.cfg.MaxPaths > 0 && e.paths+e.busy >= e.cfg.MaxPaths && len(e.stack) > 0 {
 			e.inconclusive[fmt.Sprintf("path cap of %d reached: exploration truncated", e.cfg.MaxPaths)] = len(e.stack)
